@@ -89,6 +89,10 @@ type FuncSpec struct {
 	Loops    map[int]*LoopSpec
 	Props    []string
 	Pure     bool
+	Variant  string   // non-empty: an additional contract the function is verified against (not used by callers)
+	Prune    bool     // ask the solver at each branch whether the precondition rules it out
+	Uses     []string // exported lemmas to load (default: all)
+	Abstract []string // callees summarised by their static write set while this function is verified
 	Trusted  bool
 	Bitvec   bool
 	Asserts  []SiteAssert
@@ -146,7 +150,7 @@ func LoadSpecs(dir, pkgPath, pkgName string) (*Specs, error) {
 	var last *string // for continuation lines
 	keywords := map[string]bool{"opaque": true, "pred": true, "lemma": true, "vars": true, "unfold": true, "requires": true, "ensures": true,
 		"export": true, "property": true, "func": true, "known": true, "loop": true, "invariant": true, "decreases": true, "modifies": true,
-		"pure": true, "trusted": true, "assert": true, "pattern": true, "uses": true, "noinst": true, "bitvector": true, "split": true, "bounded": true, "tier": true, "noread": true, "closure": true, "assumed": true, "reads": true}
+		"pure": true, "trusted": true, "assert": true, "pattern": true, "uses": true, "noinst": true, "bitvector": true, "split": true, "bounded": true, "tier": true, "noread": true, "closure": true, "assumed": true, "reads": true, "abstract": true, "prune": true}
 	for ln, l := range lines {
 		f := strings.Fields(l)
 		if len(f) == 0 {
@@ -192,9 +196,20 @@ func LoadSpecs(dir, pkgPath, pkgName string) (*Specs, error) {
 			curF = nil
 			sp.Lemmas = append(sp.Lemmas, curL)
 		case "func":
-			curF = &FuncSpec{Name: qual(rest), Loops: map[int]*LoopSpec{}, Order: ln}
+			// "func F" is the contract of F (used by its callers and for its own verification);
+			// "func F ~variant" is a further contract F is verified against on its own
+			// (typically with a narrower precondition); callers never see it.
+			fname, variant := rest, ""
+			if i := strings.Index(rest, "~"); i >= 0 {
+				fname, variant = strings.TrimSpace(rest[:i]), strings.TrimSpace(rest[i+1:])
+			}
+			curF = &FuncSpec{Name: qual(fname), Loops: map[int]*LoopSpec{}, Order: ln, Variant: variant}
 			curL, curLoop = nil, nil
-			sp.Funcs[curF.Name] = curF
+			if variant != "" {
+				sp.Funcs[curF.Name+"~"+variant] = curF
+			} else {
+				sp.Funcs[curF.Name] = curF
+			}
 		case "vars":
 			vs, err := parseVarDecls(rest)
 			if err != nil {
@@ -212,6 +227,9 @@ func LoadSpecs(dir, pkgPath, pkgName string) (*Specs, error) {
 		case "uses":
 			if curL != nil {
 				curL.Uses = append(curL.Uses, strings.Fields(rest)...)
+			} else if curF != nil {
+				// while this function is verified, only these exported lemmas are loaded for opaque callees
+				curF.Uses = append(curF.Uses, strings.Fields(strings.ReplaceAll(rest, ",", " "))...)
 			}
 		case "split":
 			if curL != nil {
@@ -339,6 +357,16 @@ func LoadSpecs(dir, pkgPath, pkgName string) (*Specs, error) {
 		case "reads":
 			if curF != nil {
 				curF.Reads = append(curF.Reads, strings.Fields(strings.ReplaceAll(rest, ",", " "))...)
+			}
+		case "prune":
+			if curF != nil {
+				curF.Prune = true
+			}
+		case "abstract":
+			// abstract F G: while verifying this function, calls of F and G are replaced by
+			// "everything they may write is unknown afterwards, the result is unknown" (no inlining)
+			if curF != nil {
+				curF.Abstract = append(curF.Abstract, strings.Fields(strings.ReplaceAll(rest, ",", " "))...)
 			}
 		case "pure":
 			if curF != nil {
